@@ -151,10 +151,65 @@ def sweep_use(tier, seed):
             probs.append(f'derived wrappers inject {inj(d1)} and {inj(d2)}, expected {w1} and {w2}')
         if probs:
             fails.append({'input': {'shared_base_wrapper': True, 'kwarg': kw}, 'observed': probs, 'expected': 'each wrapper injects what it was asked for'})
+    # two injections on the same function: the ORDER of the positional ones and the keyword each task goes to are part of the request
+    def ratio(*a, **k):
+        return ('ratio', a, tuple(sorted(k.items())))
+    chains = {
+        'pos(t1), pos(t2)': lambda b: Use.from_func(func=Use.from_func(func=ratio, task=b[0], key='result'), task=b[1], key='result'),
+        'pos(t2), pos(t1)': lambda b: Use.from_func(func=Use.from_func(func=ratio, task=b[1], key='result'), task=b[0], key='result'),
+        'x=t1, y=t2': lambda b: Use.from_func(func=Use.from_func(func=ratio, task=b[0], key='result', kwarg='x'), task=b[1], key='result', kwarg='y'),
+        'x=t2, y=t1': lambda b: Use.from_func(func=Use.from_func(func=ratio, task=b[1], key='result', kwarg='x'), task=b[0], key='result', kwarg='y'),
+        'y=t2, x=t1': lambda b: Use.from_func(func=Use.from_func(func=ratio, task=b[1], key='result', kwarg='y'), task=b[0], key='result', kwarg='x'),
+        'pos(t1), x=t2': lambda b: Use.from_func(func=Use.from_func(func=ratio, task=b[0], key='result'), task=b[1], key='result', kwarg='x'),
+        'pos(t2), x=t1': lambda b: Use.from_func(func=Use.from_func(func=ratio, task=b[1], key='result'), task=b[0], key='result', kwarg='x'),
+    }
+    want = {'pos(t1), pos(t2)': ('ratio', ('r1', 'r2'), ()), 'pos(t2), pos(t1)': ('ratio', ('r2', 'r1'), ()),
+            'x=t1, y=t2': ('ratio', (), (('x', 'r1'), ('y', 'r2'))), 'x=t2, y=t1': ('ratio', (), (('x', 'r2'), ('y', 'r1'))),
+            'y=t2, x=t1': ('ratio', (), (('x', 'r1'), ('y', 'r2'))),
+            'pos(t1), x=t2': ('ratio', ('r1',), (('x', 'r2'),)), 'pos(t2), x=t1': ('ratio', ('r2',), (('x', 'r1'),))}
+    same_request = {frozenset(('x=t1, y=t2', 'y=t2, x=t1'))}      # keyword injections form a mapping: the order of decoration is not part of the request
+    for la, lb in itertools.permutations(chains, 2):
+        n += 1
+        _fresh_use()
+        base = _mk_base_tasks()
+        inp = {'two_injections': [la, lb]}
+        try:
+            ta = chains[la](base).get_task()
+        except Exception as e:      # noqa
+            fails.append({'input': inp, 'observed': f'first request raised {e!r}', 'expected': 'a task'})
+            continue
+        try:
+            tb, err = chains[lb](base).get_task(), None
+        except Exception as e:      # noqa
+            tb, err = None, e
+        if err is not None:
+            if not isinstance(err, (ValueError, KeyError, TypeError, RuntimeError)):
+                fails.append({'input': inp, 'observed': f'raised {err!r}', 'expected': 'distinct tasks or an explicit error'})
+            continue
+        if frozenset((la, lb)) in same_request:
+            continue
+        if tb is ta:
+            fails.append({'input': inp, 'observed': f'two different requests silently share the task {ta.name!r}', 'expected': 'distinct tasks or an explicit error'})
+            continue
+        # which positional injection comes first at call time is a convention the property does not fix: positional values are compared as a multiset,
+        # but two requests that differ only by the order of their positional injections must not compute the same call
+        gots = {}
+        for t, lab in ((ta, la), (tb, lb)):
+            try:
+                got = _run_task(t, base)
+            except Exception as e:      # noqa
+                fails.append({'input': inp, 'observed': f'task of request {lab} raised {e!r}', 'expected': repr(want[lab])})
+                break
+            gots[lab] = got
+            if (got[0], sorted(got[1]), got[2]) != (want[lab][0], sorted(want[lab][1]), want[lab][2]):
+                fails.append({'input': inp, 'observed': f'task of request {lab} returned {got}', 'expected': repr(want[lab]) + ' (positional values in either order)'})
+                break
+        if len(gots) == 2 and {la, lb} == {'pos(t1), pos(t2)', 'pos(t2), pos(t1)'} and gots[la] == gots[lb]:
+            fails.append({'input': inp, 'observed': f'both orders of the positional injections compute the same call {gots[la]}', 'expected': 'the order of injection is part of the request'})
     return {'name': 'use-requests-native', 'evaluations': n, 'distinct': n, 'failures': fails[:8], 'exhaustive': tier != 'quick',
             'bound': f'pairs of Use.from_func requests over 5 functions (two with the same __name__, two lambdas) x 2 injected tasks x keys {{result, a}} x '
                      f'hard/soft x positional/keyword ({len(reqs)} requests); every identical pair, {"1500 sampled" if tier == "quick" else "all"} different pairs; '
-                     'the generated tasks are executed and compared with the request', 'samples': [{'requests': ['f|t1|result|hard|pos', 'f_same_name|t1|result|hard|pos']}]}
+                     'the generated tasks are executed and compared with the request; 7 double injections (both positional orders, both keyword assignments, mixed), all ordered pairs', 'samples': [{'requests': ['f|t1|result|hard|pos', 'f_same_name|t1|result|hard|pos']}]}
 
 
 def sweep_factory(tier, seed):
